@@ -302,6 +302,15 @@ func (e *Expect) occur(o *Opt, txt *string) {
 	}
 }
 
+// occurMember: one letter of a short cluster - a flag, or an optional-argument option without argument.
+func (e *Expect) occurMember(f *Opt) {
+	if f.T.IsFlag() {
+		e.occur(f, nil)
+	} else {
+		e.occurOptional(f)
+	}
+}
+
 // occurOptional: an optional-argument option given without argument stores its optional value(s).
 func (e *Expect) occurOptional(o *Opt) {
 	sh, ok := e.Shadow[o]
@@ -331,6 +340,13 @@ func (e *Expect) FinalValue(o *Opt) (string, bool) {
 	src := o.Initial
 	if len(o.Defaults) > 0 {
 		src = o.Defaults
+	}
+	if o.EnvSet != nil {
+		// the environment outranks default tags and pre-stored content
+		src = []string{*o.EnvSet}
+		if o.EnvDelim != "" {
+			src = strings.Split(*o.EnvSet, o.EnvDelim)
+		}
 	}
 	for _, txt := range src {
 		if !applyRef(v, o.T, o.Base, txt) {
@@ -509,6 +525,11 @@ func (w *walker) addCluster() bool {
 	it := &Item{Kind: ICluster}
 	for i := 0; i < n; i++ {
 		f := fl[r.Intn(len(fl))]
+		if i > 0 && len(optionals) > 0 && r.Chance(1, 5) {
+			// an optional-argument option in the middle of a cluster takes its optional value; the letters after
+			// it are still options (only the first letter of a cluster can take the rest as its argument)
+			f = optionals[r.Intn(len(optionals))]
+		}
 		it.Flags = append(it.Flags, f)
 	}
 	if len(argers) > 0 && r.Chance(1, 3) {
@@ -531,7 +552,7 @@ func (w *walker) addCluster() bool {
 	}
 	w.items = append(w.items, it)
 	for _, f := range it.Flags {
-		w.exp.occur(f, nil)
+		w.exp.occurMember(f)
 	}
 	if it.Opt != nil && it.OptNoArg {
 		w.exp.occurOptional(it.Opt)
@@ -780,7 +801,7 @@ func (s *Scenario) MissingRequired() []*Opt {
 	var miss []*Opt
 	for _, c := range s.Exp.Chain {
 		for _, o := range c.OwnOpts() {
-			if o.Required && s.Exp.Seen[o] == 0 && len(o.Defaults) == 0 {
+			if o.Required && s.Exp.Seen[o] == 0 && len(o.Defaults) == 0 && o.EnvSet == nil {
 				miss = append(miss, o)
 			}
 		}
@@ -999,7 +1020,7 @@ func Denote(d *Decl, items []*Item) *Denotation {
 			w.exp.occurOptional(it.Opt)
 		case ICluster:
 			for _, f := range it.Flags {
-				w.exp.occur(f, nil)
+				w.exp.occurMember(f)
 			}
 			if it.Opt != nil && it.OptNoArg {
 				w.exp.occurOptional(it.Opt)
